@@ -104,7 +104,8 @@ func (g *gen) Generate(typs []types.Type) error {
 	}
 	g.Generating(typs...)
 	p := g.printer
-	cc := types.NewChan(types.RecvOnly, types.NewChan(types.RecvOnly, c))
+	// fmap returns a receive only channel of whatever g returns, which might be a channel of any direction.
+	cc := types.NewChan(types.RecvOnly, typs[1].(*types.Signature).Results().At(0).Type())
 	t0str := g.TypeString(typs[0])
 	t1str := g.TypeString(typs[1])
 	astr := g.TypeString(a)
